@@ -209,12 +209,23 @@ def r4(prog, ev, rep):
     keyp = Tm("param", (2, "key"))
     # content branch?
     conds = [x for x in subterms(pt) if x.k in ("if", "match")]
-    if conds:
-        dep = [x for c in conds for x in subterms(c.a[0]) if x == keyp]
-        if dep:
-            rep.bad("C03-R4", "%s|content-branch" % shared.rk(prog, ev, kp), where,
-                    "the shape of the name step depends on the name's own text (`%s`): a member literally named 'x' (with quotes) "
-                    "is reported like member x" % conds[0].a[0])
+    seen_sig = set()
+    for c in conds:
+        if not any(x == keyp for x in subterms(c.a[0])):
+            continue
+        # which tests on the name's text decide the shape: the finding is keyed by them, so another content test is another finding
+        tests = set()
+        for x in subterms(c.a[0]):
+            if x.k == "call" and any(y == keyp for a in x.a[1:] if isinstance(a, Tm) for y in subterms(a)):
+                lits = [a.a[1] for a in x.a[1:] if isinstance(a, Tm) and a.k == "lit"]
+                tests.add("%s(%s)" % (x.a[0].rsplit("::", 1)[-1], ",".join(str(l) for l in lits)))
+        sig = ";".join(sorted(tests)) or "?"
+        if sig in seen_sig:
+            continue
+        seen_sig.add(sig)
+        rep.bad("C03-R4", "%s|content-branch{%s}" % (shared.rk(prog, ev, kp), sig), where,
+                "the shape of the name step depends on the name's own text (`%s`): a member whose name merely looks quoted "
+                "is reported like the unquoted member" % str(c.a[0])[:200])
     fmts = [x for x in subterms(pt) if x.k == "call" and x.a[0] == "<format>"]
     okshape = False
     verbatim = False
